@@ -21,7 +21,7 @@ CLAIMED = {
          "Model checking of `Impl => R` on the escape model over the escape-relevant alphabets, plus trace validation of the real code: for every enumerated/random string and byte string TLC lexes the recorded literal with the engine's rules (single token, decoded value equals input) and, for literals embedded in query/schema statements, requires that no other token of the statement depends on the value (injection safety). SQLite renderings are additionally executed on the real engine.",
          "Trusted: the MySQL/PostgreSQL lexical models (no engine available), TLC, SQLite 3.40.1. NUL excluded on PostgreSQL/SQLite.",
          "§5 C03, Appendix C.1"),
- "C04": ("Identifier quoting (Iden::prepare) transcribed in TLA+ and checked by TLC against the three engines' quoted-identifier lexical rules over all short names of a quote-relevant alphabet; the names are replayed into 69 identifier positions of real query and schema statements and validated token-by-token by TLC; SQLite alias read back from the real engine",
+ "C04": ("Identifier quoting (Iden::prepare) transcribed in TLA+ and checked by TLC against the three engines' quoted-identifier lexical rules over all short names of a quote-relevant alphabet; the names are replayed into 78 identifier positions of real query and schema statements and validated token-by-token by TLC; SQLite alias read back from the real engine",
          "Model checking of the quoting routine against the engine lexers (every name up to the tier's length over {a, \", `, ', \\, space, e-acute, ., ], [}), and trace validation of the real code: each recorded statement must lex to the same token sequence as the reference rendering, with a quoted-identifier token decoding to exactly the supplied name at the position(s) of the name. Positions written by separate code (index, constraint, FK names, PG enum cast) are explicit positions.",
          "Trusted: MySQL/PostgreSQL identifier lexical rules as modelled; TLC. Empty names and NUL outside the domain.",
          "§5 C04"),
@@ -34,7 +34,7 @@ CLAIMED = {
          "Trusted: TLC; Kleene semantics of AND/OR/NOT/=/<>/IS; the expression parser of C05; SQLite engine.",
          "§5 C06, Appendix A"),
  "C10": ("src/query/insert.rs as a TLA+ state machine (columns / source / default_values; one action per public call); TLC explores every call history up to the tier's length with an invariant on Results, an action property on rejected calls and a rendering-vs-accepted-rows check; all histories are replayed step by step on the real InsertStatement and validated by TLC against the property-level reading of the history",
-         "Model checking of the insert builder over all call sequences (25 actions, length <= 3 quick / <= 4 thorough; rows handed over as a Vec, as an iterator whose size_hint overestimates and as one without a size hint) and trace validation of the real builder on the same histories plus random longer ones: per step the Result (both counts, and the order in which the error's message gives them), `stmt == clone` after a rejection, and the parsed VALUES list of all three renderings against the rows the history has had accepted.",
+         "Model checking of the insert builder over all call sequences (30 actions, length <= 3 quick / <= 4 thorough; equal cells and equal rows, a tuple-valued row, a wildcard select list; rows handed over as a Vec, as an iterator whose size_hint overestimates and as one without a size hint) and trace validation of the real builder on the same histories plus random longer ones: per step the Result (both counts, and the order in which the error's message gives them), `stmt == clone` after a rejection, and the parsed VALUES list of all three renderings against the rows the history has had accepted.",
          "Trusted: TLC; the INSERT parser of Insert.tla. Known findings: columns() re-declared after rows; zero-column rows (see known_findings.json).",
          "§5 C10"),
  "C11": ("CustomWithExpr token loop and inject_parameters transcribed in TLA+ over the Tokenizer model; property-level TemplateAbs defines placeholders independently; TLC checks impl = abs on every template assembled from <= 3/4 items, generates them, and validates the recorded expansions (inline, parameterised, bound values, inject_parameters) of the real code",
@@ -42,7 +42,7 @@ CLAIMED = {
          "Trusted: TLC; the stated domain restrictions (PostgreSQL `$` glued to word characters; literal marks produced by doubled marks for inject). Known finding: lone `$` on PostgreSQL.",
          "§5 C11"),
  "C01": ("Writer.tla (SqlWriterValues as Write/PushParam actions; the invariant on counter/values/placeholders checked by TLC and proved inductive without bounds by TLAPS in WriterProof.tla) and Stmt.tla (statement builders as state machines + the clause-emission order of prepare_*_statement with all backend overrides) checked by TLC over the pairwise-complete clause product; the same statements replayed on the real crate with the public SqlWriter trait recording the event stream; TLC validates events, placeholder lexing and bound-value order against StmtLaw!BoundOrder",
-         "Model checking of the writer automaton and of the statement renderer model (C01 invariants on every enumerated statement x 3 backends), plus trace validation of the real renderer: the recorded write/push_param events must be a behaviour of Writer.tla, the engine lexer must find exactly n placeholders (PostgreSQL $1..$n ascending), and the bound values must be the values given, in the order the dialect's grammar places their clauses (values are distinct tags).",
+         "Model checking of the writer automaton and of the statement renderer model (C01 invariants on every enumerated statement x 3 backends), plus trace validation of the real renderer: the recorded write/push_param events must be a behaviour of Writer.tla, the engine lexer must find exactly n placeholders (PostgreSQL $1..$n ascending), and the bound values must be the values given, in the order the dialect's grammar places their clauses (values are distinct tags); build_any is judged on its own text and values as well.",
          "Trusted: TLC; TLAPS (tlapm) for the unbounded writer invariant; EngineLex; the per-dialect clause order of StmtLaw.tla (Appendix C.3).",
          "§5 C01"),
  "C02": ("Stmt.tla renders every statement with a String writer and with SqlWriterValues (ToParams); TLC checks token-for-token equality modulo literal substitution on the model and on the recordings of the real crate for all entry points; both forms executed on the real SQLite",
